@@ -174,6 +174,68 @@ pub fn enqueue_reply_at<const LEN: usize, const POS: usize>(nd: &mut Nd) {
     core::mem::forget(conn);
 }
 
+/// A message whose size is fixed by the instance (`Reply<()>` with CONT: 0 = no `continues`, 2 bytes;
+/// 1 = `true`, 18 bytes; 2 = `false`, 19 bytes), enqueued behind POS bytes of *arbitrary* earlier
+/// content. With nothing symbolic in the geometry the formula stays small whatever the growth code
+/// does, so these instances also decide changes that make the general `enqueue_reply_at` instances
+/// run out of memory; they are chosen so that the document ends exactly at the buffer end, one byte
+/// before it, and one byte after it.
+pub fn enqueue_fixed_at<const LEN: usize, const POS: usize, const CONT: usize>(nd: &mut Nd) {
+    let continues = match CONT {
+        0 => None,
+        1 => Some(true),
+        _ => Some(false),
+    };
+    let mut buffer = vec![0x55u8; LEN];
+    let mut earlier = [0u8; 40];
+    let mut i = 0;
+    while i < POS {
+        earlier[i] = nd.u8();
+        buffer[i] = earlier[i];
+        i += 1;
+    }
+    let mut conn = WriteConnection::verif_from_parts(CaptureWrite::new(), buffer, POS, 7);
+    let reply: Reply<()> = Reply::new(None).set_continues(continues);
+    let res = conn.verif_enqueue(&reply);
+    let doc = expect_reply_unit(continues);
+    let n = doc.n;
+    let fits = POS + n + 1 <= MAX;
+    let (buf, pos) = conn.verif_parts();
+    match res {
+        Ok(()) => {
+            assert!(fits, "C17.out_message_beyond_limit_is_refused");
+            assert!(pos == POS + n + 1, "C02.position_advances_by_document_plus_terminator");
+            let mut ok = buf.len() >= pos && buf.len() <= MAX && buf.len() % STEP == 0;
+            let mut i = 0;
+            while i < DOCMAX {
+                if ok && i < n && buf[POS + i] != doc.b[i] {
+                    ok = false;
+                }
+                i += 1;
+            }
+            assert!(ok, "C02.document_bytes_exact");
+            assert!(buf[POS + n] == 0, "C02.exactly_one_nul_after_document");
+        }
+        Err(e) => {
+            let overflow = is_overflow(&e);
+            core::mem::forget(e);
+            assert!(overflow && !fits, "C17.out_message_within_limit_is_accepted");
+            assert!(pos == POS, "C02.refused_message_contributes_no_bytes");
+        }
+    }
+    let mut same = true;
+    let mut i = 0;
+    while i < POS {
+        if buf[i] != earlier[i] {
+            same = false;
+        }
+        i += 1;
+    }
+    assert!(same, "C02.earlier_messages_untouched");
+    cover!(nd, POS == 0 || earlier[0] != 0x55, "earlier content arbitrary");
+    core::mem::forget(conn);
+}
+
 /// `Reply<&str>` with a one-character symbolic ASCII string (the document length is symbolic:
 /// 19, 20 or 24 bytes depending on how the character is escaped).
 pub fn enqueue_str_at<const LEN: usize, const POS: usize>(nd: &mut Nd) {
